@@ -4,6 +4,7 @@ import LivesimVerif.Model.Scte
 import LivesimVerif.Model.Subs
 import LivesimVerif.Model.Chunk
 import LivesimVerif.Model.Patch
+import LivesimVerif.Model.Myers
 import LivesimVerif.Model.Ttml
 import Driver.Util
 import Driver.Recv
@@ -133,6 +134,23 @@ def opLeaf (args : List String) : String :=
     | _, _, _ => "bad-op"
   | _ => "bad-op"
 
+def editStr : Patch.Edit → String
+  | .del p => s!"d{p}"
+  | .ins p q => s!"i{p}:{q}"
+
+/-- `myers <xs> <ys>`: the edit script of the Lean model of `MyersDiff` -/
+def opMyers (args : List String) : String :=
+  match args with
+  | [xs, ys] =>
+    match natList xs, natList ys with
+    | some xs, some ys =>
+      match Myers.myers xs ys with
+      | none => "PANIC"
+      | some [] => "-"
+      | some es => joinWith "," (es.map editStr)
+    | _, _ => "bad-op"
+  | _ => "bad-op"
+
 /-! ### C01 (TTML clause): `ttml <doc-with-_-for-space> <shiftMS>`, `tshift <timeShift> <timescale>` -/
 def opTtml (args : List String) : String :=
   match args with
@@ -161,6 +179,7 @@ def step (st : DState2) (line : String) : DState2 × String :=
   | "cue" :: args => (st, opCue args)
   | "chunk" :: args => (st, opChunk args)
   | "leaf" :: args => (st, opLeaf args)
+  | "myers" :: args => (st, opMyers args)
   | "ctr" :: args => (st, opCtr args)
   | "buf" :: args => (st, opBuf args)
   | "gen" :: args => (st, opGen args)
